@@ -356,6 +356,8 @@ def m_minmax(which):
 
 
 def m_any(it, args, kwargs, node):
+    if hasattr(args[0], 'any_'):
+        return args[0].any_()
     for x in it.iterate(args[0], node):
         if it.branch(x, 'any'):
             return True
@@ -363,6 +365,8 @@ def m_any(it, args, kwargs, node):
 
 
 def m_all(it, args, kwargs, node):
+    if hasattr(args[0], 'all_'):
+        return args[0].all_()
     for x in it.iterate(args[0], node):
         if not it.branch(x, 'all'):
             return False
